@@ -89,3 +89,8 @@ claim("C09", "per-path structural rules over list.c's IR (clear-on-unlink, tail 
       "Decides necessary structural clauses of the sequence behaviour on every path of every list function: an unlinked node's next is cleared; a node stored where the chain ends (or where emptiness was not tested) becomes the tail; removal through an iterator fixes the tail; sorted insertion is stable; list_iterate/next/contains/remove keep the iterator on the documented element, also on a miss. Each has a concrete failing operation sequence when broken.",
       "Equality with an abstract sequence after arbitrary operation histories is a heap-shape property and is NOT decided (no shape analysis is attempted); behaviour of iterators used past the end is not decided. Trusted: clang 14 front end, ir2json, path/segment enumerator.",
       "DESIGN.md section 2 C09")
+claim("C11", "loop-free segment analysis of bintree.c's IR: pairing rules (thread/un-thread, tag/untag with the exact mask), return-moment and dealloc/patch/advance ordering",
+      "other",
+      "Decides the pairing and discipline clauses of the four mechanisms the property anchors: Morris threads are created only over NULL links and removed wherever found, with the node returned at the documented moment; the post-order tag is exactly bit 0 and is stripped with exactly ~1 everywhere and restored before the node is returned; bintree_free never touches a node after deallocating it, patches the parent's link before advancing the iterator, and the iterator records the parent and forgets the root; free_left/right clear the link after freeing. bintree.c is not built by the test suite, so any edit passes it.",
+      "Visiting order and restoration of every link for every tree shape, and the list iterators on list spines, are heap-shape properties and are NOT decided. Trusted: clang 14 front end, ir2json, segment enumerator.",
+      "DESIGN.md section 2 C11")
